@@ -19,8 +19,7 @@
 //!       iterates to the events the recorded calls denote.
 //!
 //! Families: `exh` all sequences of length ≤ 3 over a 39-letter alphabet (19 trait commands +
-//! `arc`, two operand choices each); `exhm` the same after `M 1 2` (thorough: length 3; quick:
-//! length ≤ 2); `blk` (thorough) all sequences of length 4 in blocks of 39; `rnd` random
+//! `arc`, two operand choices each); `exhm` the same after `M 1 2`; `blk` (thorough) all sequences of length 4 in blocks of 39; `rnd` random
 //! sequences up to length 60; `pat` short random sequences biased to curves/arcs/smooth/close.
 
 use lyon_path::builder::{Build, PathBuilder, SvgPathBuilder, WithSvg};
@@ -415,7 +414,7 @@ enum Exp {
     C(P2, P2, P2),
     E(bool),
     /// optional (near) zero-length line to the current point, then ≥ 1 quadratics ending at `to`
-    ArcChain { from: P2, to: P2, tol: f64 },
+    ArcChain { from: P2, to: P2, tol: f64, or_line: bool },
     /// `WithSvg::arc` (not an SVG command): any edges
     FreeEdges,
 }
@@ -501,12 +500,17 @@ impl Ref {
     fn arc_to(&mut self, a: &ArcP, to: P2, out: &mut Vec<Exp>) {
         // SVG implementation notes: zero radius => straight line; identical endpoints => nothing
         // drawn (lyon draws a zero-length line: accepted, it does not change the geometry)
-        if a.radii.x == 0.0 || a.radii.y == 0.0 || to == self.cur {
+        let from = self.cur;
+        // after an earlier arc the implementation's current point is only near ours: if the
+        // target is within that allowance it may or may not see identical endpoints
+        let allowance = if self.tol > 0.0 { self.tol * 1.0001 + 1e-4 * (1.0 + mag(from)) } else { 0.0 };
+        let same = dist(from, to) <= allowance;
+        if a.radii.x == 0.0 || a.radii.y == 0.0 || (same && self.tol == 0.0) {
             self.line(to, out);
             self.prev = Prev::Arc;
             return;
         }
-        let from = self.cur;
+        let or_line = same;
         if !self.open {
             // no SVG rule (a path must start with a move-to); "the arc starts at the current
             // point" (doc of arc_to): sub-path start resp. the origin
@@ -515,10 +519,32 @@ impl Ref {
         }
         let scale = 1.0 + mag(from).max(mag(to)).max(a.radii.x.abs() as f64).max(a.radii.y.abs() as f64).max(dist(from, to));
         let tol = 4e-3 * scale;
-        out.push(Exp::ArcChain { from, to, tol });
+        out.push(Exp::ArcChain { from, to, tol, or_line });
         self.cur = to;
         self.tol += tol;
         self.prev = Prev::Arc;
+    }
+
+    /// adopt what the implementation did for one command (after a failure of a listed class)
+    fn resync(&mut self, got: &[Call], cur: Point, arc: bool) {
+        for c in got {
+            match *c {
+                Call::B(q) => {
+                    self.start = p2(q);
+                    self.open = true;
+                    self.empty = false;
+                    self.prev = Prev::Other;
+                }
+                Call::Q(k, _) => self.prev = Prev::Quad(p2(k)),
+                Call::C(_, k, _) => self.prev = Prev::Cubic(p2(k)),
+                _ => {}
+            }
+        }
+        if arc {
+            self.prev = Prev::Arc;
+        }
+        self.cur = p2(cur);
+        self.tol += 1e-4 * (1.0 + mag(self.cur));
     }
 
     fn step(&mut self, c: &Cmd) -> Vec<Exp> {
@@ -663,6 +689,7 @@ fn oracle(cmds: &[Cmd], r: &Run, orc: &mut Oracle) {
     orc.check(r.bad_attr.is_none(), "svg.attributes/zero-buffer", "generic", || r.bad_attr.clone().unwrap());
     // (2) SVG rules
     let mut rf = Ref::new();
+    let mut deferred: Vec<(String, &'static str, String)> = Vec::new();
     for (i, c) in cmds.iter().enumerate() {
         let open_before = rf.open;
         let exp = rf.step(c);
@@ -688,9 +715,17 @@ fn oracle(cmds: &[Cmd], r: &Run, orc: &mut Oracle) {
                 (Exp::Q(a, p), Some(Call::Q(b, q))) => near(*b, *a) && near(*q, *p),
                 (Exp::C(a1, a2, p), Some(Call::C(b1, b2, q))) => near(*b1, *a1) && near(*b2, *a2) && near(*q, *p),
                 (Exp::E(x), Some(Call::E(y))) => x == y,
-                (Exp::ArcChain { from, to, tol: at }, _) => {
+                (Exp::ArcChain { from, to, tol: at, or_line }, _) => {
                     let t = tol + at;
                     let mut j = k;
+                    if *or_line && got.len() == k + 1 {
+                        if let Some(Call::L(q)) = got.get(k) {
+                            if dist(p2(*q), *to) <= t {
+                                k += 1;
+                                continue;
+                            }
+                        }
+                    }
                     if let Some(Call::L(q)) = got.get(j) {
                         if dist(p2(*q), *from) <= t {
                             j += 1;
@@ -718,8 +753,10 @@ fn oracle(cmds: &[Cmd], r: &Run, orc: &mut Oracle) {
                     while let Some(Call::L(_) | Call::Q(..)) = got.get(k) {
                         k += 1;
                     }
-                    rf.cur = p2(r.curs[i]);
-                    rf.tol += 1e-4 * (1.0 + mag(rf.cur));
+                    if !got.is_empty() {
+                        rf.cur = p2(r.curs[i]);
+                        rf.tol += 1e-4 * (1.0 + mag(rf.cur));
+                    }
                     k == got.len()
                 }
                 _ => false,
@@ -735,18 +772,30 @@ fn oracle(cmds: &[Cmd], r: &Run, orc: &mut Oracle) {
             problem = Some((format!("command {} ({:?}): expected {:?}, calls were {:?}", i, c, exp, got), clause_of(c)));
         }
         if let Some((d, clause)) = problem {
-            orc.check(false, clause, class, || format!("{} in {}", d, fmt_seq(cmds)));
-            return;
+            let d = format!("{} in {}", d, fmt_seq(cmds));
+            if class == "generic" {
+                orc.check(false, clause, class, || d);
+                return;
+            }
+            // matches a listed finding's witness class: remember it, re-synchronise the reference
+            // with what lyon did and go on, so that a different violation later in the same
+            // sequence is still found (and reported in preference)
+            deferred.push((clause.to_string(), class, d));
+            rf.resync(got, r.curs[i], c.is_arc());
+            continue;
         }
         // current point (close returns to the sub-path start, arcs end at their target, …)
         let tol2 = rf.tol * 1.0001 + if rf.tol > 0.0 { 1e-4 * (1.0 + mag(rf.cur)) } else { 0.0 };
         let cp_ok = dist(p2(r.curs[i]), rf.cur) <= tol2;
         if !cp_ok {
             let cl = if c.is_arc() { clause_of(c).to_string() } else { format!("{}/current-point", clause_of(c)) };
-            orc.check(false, &cl, class, || {
-                format!("command {} ({:?}): current_position {:?}, SVG rules give {:?} in {}", i, c, r.curs[i], rf.cur, fmt_seq(cmds))
-            });
-            return;
+            let d = format!("command {} ({:?}): current_position {:?}, SVG rules give {:?} in {}", i, c, r.curs[i], rf.cur, fmt_seq(cmds));
+            if class == "generic" {
+                orc.check(false, &cl, class, || d);
+                return;
+            }
+            deferred.push((cl, class, d));
+            rf.resync(got, r.curs[i], c.is_arc());
         }
     }
     // (4) the same commands through the real storage
@@ -759,6 +808,9 @@ fn oracle(cmds: &[Cmd], r: &Run, orc: &mut Oracle) {
         let got: Vec<PathEvent> = path.iter().collect();
         let want = events_of(&all);
         orc.check(got == want, "svg.path/events", "generic", || format!("Path events {:?} but recorded calls denote {:?}", got, want));
+    }
+    if let Some((clause, class, d)) = deferred.into_iter().next() {
+        orc.check(false, &clause, class, || d);
     }
 }
 
@@ -947,8 +999,7 @@ fn main() {
         }
     }
     // exhm: inside a sub-path (after `M 1 2`)
-    let maxm = if ctx.thorough { 3 } else { 2 };
-    for len in 1..=maxm {
+    for len in 1..=3 {
         for k in 0..n.pow(len as u32) {
             emit(&mut ctx, "exhm", |_| {
                 let mut s = vec![Cmd::M(point(1., 2.))];
